@@ -170,27 +170,33 @@ fn path_to_uri(path: &Path) -> Option<Uri> {
     Url::from_file_path(path).ok()
 }
 
-/// Convert a byte offset in `src` to an LSP position on the line
-/// `line_number`. LSP positions count UTF-16 code units within the
-/// line.
-fn offset_to_lsp_position(src: &str, offset: usize, line_number: usize) -> Position {
+/// Convert a byte offset in `src` to an LSP position. LSP positions
+/// count UTF-16 code units within the line.
+///
+/// The line is computed from the offset rather than taken from a
+/// Garden position: positions whose offsets have been adjusted (e.g.
+/// a fix that removes a whole line) or that end inside a multi-line
+/// token do not carry the line number of their end offset.
+fn offset_to_lsp_position(src: &str, offset: usize) -> Position {
     let offset = offset.min(src.len());
-    let line_start = src[..offset].rfind('\n').map_or(0, |i| i + 1);
+    let before = &src[..offset];
+    let line_start = before.rfind('\n').map_or(0, |i| i + 1);
+    let line = before.bytes().filter(|b| *b == b'\n').count();
     let character = src[line_start..offset].encode_utf16().count();
 
     Position {
-        line: line_number as u32,
+        line: line as u32,
         character: character as u32,
     }
 }
 
 /// Convert a Garden position to an LSP range, using `src` (the source
-/// of the file the position is in) to convert byte offsets to UTF-16
-/// columns.
+/// of the file the position is in) to convert byte offsets to lines
+/// and UTF-16 columns.
 fn garden_pos_to_lsp_range(src: &str, pos: &GardenPosition) -> Range {
     Range {
-        start: offset_to_lsp_position(src, pos.start_offset, pos.line_number),
-        end: offset_to_lsp_position(src, pos.end_offset, pos.end_line_number),
+        start: offset_to_lsp_position(src, pos.start_offset),
+        end: offset_to_lsp_position(src, pos.end_offset),
     }
 }
 
@@ -1338,8 +1344,8 @@ fn line_char_to_offset(src: &str, line: usize, character: usize) -> usize {
 
 /// Verification hook: expose `offset_to_lsp_position`.
 #[cfg(wilfred_garden_verif)]
-pub(crate) fn verif_offset_to_lsp_position(src: &str, offset: usize, line: usize) -> (u32, u32) {
-    let p = offset_to_lsp_position(src, offset, line);
+pub(crate) fn verif_offset_to_lsp_position(src: &str, offset: usize, _line: usize) -> (u32, u32) {
+    let p = offset_to_lsp_position(src, offset);
     (p.line, p.character)
 }
 
@@ -1766,8 +1772,19 @@ mod tests {
     #[test]
     fn test_offset_to_lsp_position_utf16() {
         let src = "\"😀\" x";
-        let position = offset_to_lsp_position(src, 7, 0);
+        let position = offset_to_lsp_position(src, 7);
         assert_eq!(position.character, 5);
+    }
+
+    #[test]
+    fn test_offset_to_lsp_position_line() {
+        // The line is the number of newlines before the offset, so a
+        // position that ends just after a newline is on the next line.
+        let src = "ab\ncd\nef";
+        assert_eq!(offset_to_lsp_position(src, 2).line, 0);
+        assert_eq!(offset_to_lsp_position(src, 3).line, 1);
+        assert_eq!(offset_to_lsp_position(src, 6).line, 2);
+        assert_eq!(offset_to_lsp_position(src, 6).character, 0);
     }
 
     #[test]
